@@ -324,7 +324,7 @@ def emit(ast) -> str:
 
 
 def gen_env(rng):
-    return {"dims": [rng.choice([3, 5, 16]), rng.choice([2, 7])], "n": [rng.choice([0, 1, 2, 3, 5]), rng.choice([0, 1, 2, 4])], "l": rng.choice([0, 1, 2]), "t": rng.choice([1, 2, 3])}
+    return {"dims": [rng.choice([3, 5, 16]), rng.choice([2, 7])], "n": [rng.choice([0, 1, 2, 3, 5, -1, -4, -9]), rng.choice([0, 1, 2, 4, -2, -6])], "l": rng.choice([0, 1, 2]), "t": rng.choice([1, 2, 3])}
 
 
 def shrink_body(body):
